@@ -657,8 +657,18 @@ KINDS = [("fn_case", k_fn_case), ("method_case", k_method_case), ("namespace_cas
 
 # ways of invoking mage that must not influence what is accepted or which body runs: (flags, environment)
 MODES = {"plain": ([], {}), "-debug": (["-debug"], {}), "-v": (["-v"], {}), "MAGEFILE_DEBUG=1": ([], {"MAGEFILE_DEBUG": "1"}),
-         "MAGEFILE_VERBOSE=1": ([], {"MAGEFILE_VERBOSE": "1"}), "-f": (["-f"], {}), "MAGEFILE_HASHFAST=1": ([], {"MAGEFILE_HASHFAST": "1"})}
-MODE_POOL = ["plain"] * 5 + ["-debug"] * 3 + ["MAGEFILE_DEBUG=1"] * 2 + ["-v", "MAGEFILE_VERBOSE=1", "-f", "MAGEFILE_HASHFAST=1"]
+         "MAGEFILE_VERBOSE=1": ([], {"MAGEFILE_VERBOSE": "1"}), "-f": (["-f"], {}), "MAGEFILE_HASHFAST=1": ([], {"MAGEFILE_HASHFAST": "1"}),
+         # colour: what is refused and which definitions the diagnosis names must not depend on it
+         "COLOR=true TERM=xterm-256color": ([], {"MAGEFILE_ENABLE_COLOR": "true", "TERM": "xterm-256color"}),
+         "COLOR=1 TERM=vt100": ([], {"MAGEFILE_ENABLE_COLOR": "1", "TERM": "vt100"}),
+         "COLOR=true TERM=xterm": ([], {"MAGEFILE_ENABLE_COLOR": "true", "TERM": "xterm"}),
+         "COLOR=true TERM=dumb": ([], {"MAGEFILE_ENABLE_COLOR": "true", "TERM": "dumb"}),
+         "COLOR=true TERM=": ([], {"MAGEFILE_ENABLE_COLOR": "true", "TERM": ""}),
+         "COLOR=true TARGET_COLOR=Red": ([], {"MAGEFILE_ENABLE_COLOR": "true", "MAGEFILE_TARGET_COLOR": "Red", "TERM": "xterm-256color"}),
+         "TARGET_COLOR=BrightCyan": ([], {"MAGEFILE_TARGET_COLOR": "BrightCyan", "TERM": "xterm-256color"})}
+MODE_POOL = ["plain"] * 5 + ["-debug"] * 3 + ["MAGEFILE_DEBUG=1"] * 2 + ["-v", "MAGEFILE_VERBOSE=1", "-f", "MAGEFILE_HASHFAST=1"] + \
+            ["COLOR=true TERM=xterm-256color"] * 2 + ["COLOR=1 TERM=vt100", "COLOR=true TERM=xterm", "COLOR=true TERM=dumb", "COLOR=true TERM=",
+                                                    "COLOR=true TARGET_COLOR=Red", "TARGET_COLOR=BrightCyan"]
 
 
 def fillers(P):
